@@ -23,6 +23,7 @@ def run(chk):
         fixed.append((n3, [("D", 1, 2, 2, "now")] + closer + [("Q",), ("D", 2, 1), ("Q",)]))
     simnet.run_netscripts(chk, 24 if quick else 300, [3, 4], lambda r: r.randrange(4, 10), w, "fabric:faults", fixed=fixed)
     simnet.c09_handler_panic(chk)
+    simnet.c09_asymmetric_idle(chk)
     chk.assumptions += ["quinn's idle timeout, keep-alive and close propagation (transport hypothesis of NetModel.Quiesce / Disconnect)",
                         "operations do not overlap (each is followed by a settle time); overlapping dials are C05's subject"]
     if not quick:
